@@ -13,6 +13,7 @@ RULE = ('seeded sequential runs (15% with -j N: the children\'s output is relaye
         'sys.stdout/sys.stderr; over the merged stdout+stderr log: tokens of non-failing tests '
         'absent, tokens of failing tests present and only inside that test\'s own region. '
         'distinct = digest of hook-site sequence + faults; non-trivial = a token was written')
+RULE += (' ' + 'Later additions: tests that replace, swap, wrap or close the std streams; tests that drive a nested in-process run of the runner (inner run must hand back the streams it found; the outer capture stays intact).')
 BIAS = dict(n_test_faults=[0, 1, 2, 3, 4], n_layer_faults=[0], p_buffer=0.7, p_j=0.15, p_xml=0.15,
             p_repeat=0.2, p_shuffle=0.15, v=[0, 1, 2, 3], n_writes=[1, 2, 3, 4, 6],
             profile=dict(p_subtests=0.2, p_setup=0.6, p_teardown=0.6, p_cleanup=0.3,
